@@ -73,6 +73,7 @@ EST_FORMS = {
     "untyped_path": (None, "/messages/?session_id=untyped"),
     "relative_path": ("endpoint", "messages/?session_id=rel1"),
     "relative_noslash": ("endpoint", "messages?session_id=rel2"),     # a relative reference whose path has no slash at all
+    "relative_bare": ("endpoint", "messages"),                        # ... and no query either
 }
 
 
@@ -102,7 +103,7 @@ class Server:
             return self.base + data
         if data.startswith("http"):
             return data
-        if "/" in data.split("?")[0] or ("?" in data and data.split("?")[0]):
+        if "/" in data.split("?")[0] or ("?" in data and data.split("?")[0]) or ("=" not in data and "?" not in data):
             return f"{self.base}/{data}"     # a relative reference, resolved against <base>/sse
         return f"{self.base}/messages/?{data}"
 
